@@ -445,6 +445,14 @@ impl Vm {
               let mut stdio = self.io().stdio();
               let stderr = stdio.stderr();
               writeln!(stderr, "Fatal error deadlock.").expect("Unable to write to stderr");
+
+              // a native waiting on this callback has no error to pick up, end the
+              // program through it the way exit does
+              if let ExecutionMode::CallingNativeCode(_) = mode {
+                self.exit_code = 1;
+                return ExecutionResult::Exit(1);
+              }
+
               return ExecutionResult::RuntimeError;
             },
           },
